@@ -97,16 +97,7 @@ func verifC26Exec(op string) string {
 	f := strings.Fields(op)
 	switch f[0] {
 	case "reset":
-		// which Decode variant is this tree? canonical witnesses of the two finding classes
-		b := func(format, cand string) string {
-			var p Path
-			if p.Decode(format, cand) {
-				return "1"
-			}
-			return "0"
-		}
-		return b("%path/%s.mp4", "a/1700000000.mp4.bak") + " " + b("x%path/%s.mp4", "yxa/1700000000.mp4") + " " +
-			b("%path/%path_%s.mp4", "a/b_1700000000.mp4")
+		return "ok" // case delimiter only
 	case "rt":
 		// rt <zone> <tloc> <fmt> <path> <us> | oracle columns …
 		verifC26SetLocal(f[1])
